@@ -1,6 +1,10 @@
-"""DSL extensions: Condition, memory object streams, lru_cache (filled in per property)."""
+"""DSL extensions: Condition, memory object streams, lru_cache."""
 
 from __future__ import annotations
+
+import math
+
+import anyio
 
 
 def make_object(interp, name, kind, o):
@@ -12,4 +16,12 @@ def env_action(interp, do):
 
 
 async def run_op(interp, t, op, opid):
+    objs = interp.w.objs
+    k = op[0]
+    if k == "cwait":
+        return await interp._blocking(t, opid, "cwait", [op[1]], objs[op[1]].wait())
+    if k == "notify":
+        return interp._sync(t, opid, "notify", [op[1], op[2]], lambda: objs[op[1]].notify(op[2]))
+    if k == "notify_all":
+        return interp._sync(t, opid, "notify_all", [op[1]], objs[op[1]].notify_all)
     raise ValueError(f"unknown op {op}")
